@@ -50,7 +50,7 @@ Theorem C06_roundtrip_block_partial :
   forall (fixed : fixes) (F : list (str * finfo)) (fr : frs) (G : ctx) (terms blank : bool) (body : list fstmt),
   boks B F fr G terms blank body ->
   forall (lvl f fuel : nat) (els : bool) (acc : list stmt) (s : pst) (endq : list token) (tk : token) (r' : list token),
-  szl body <= f -> List.length body < fuel ->
+  szb blank body <= f -> szb blank body < fuel ->
   skip1 endq = tk :: r' -> at_end els (ttype tk) = true ->
   ST F s (skip1 (body_toks fixed (S lvl) blank body ++ endq)) G fr ->
   exists s' G', block_loop (parse_statement B f) fuel els acc terms s
